@@ -327,7 +327,7 @@ def main(pid, tier, replay=None):
         proof = core.run_tlapm("CTBuildProof", ["CTBuild"], res.wd, threads=8)
         p_out = proof.pop("out")
         res.notes["tlaps_theorems"] = dict(proof, what="CTBuildProof.tla: Inv inductive (an output newer than the grammar file was made from its current version); "
-                                                        "AfterBuild (successful build = clean build), NoStale, Unchanged")
+                                                        "AfterBuild (successful build = clean build), NoStale, Unchanged, BothLexer, BothParser")
         if proof["outcome"] != "proved":
             res.cov["inconclusive"] += 1
             res.notes["tlaps_output"] = p_out[-600:]
